@@ -99,7 +99,16 @@ def build(tree, thick, ops=("mean", "sum"), with_dx=True, resolution=None, vecto
         cv = kw.get("cell_values")
         if not isinstance(cv, Stack):
             raise Unsupported("cell_values handed to the kernel is %r" % (cv,))
-        return Stack([Sym(("grid", k)) for k in range(len(cv))])
+        # the output has one (nz, ny, nx) grid per slot: nz = depth extent / depth spacing (an integer when the resolution is given)
+        inner = None
+        try:
+            lo, sp = Sc.lift(kw.get("grid_lower_edge_in_new_basis_z")), Sc.lift(kw.get("grid_spacing_in_new_basis_z"))
+            q = ((lo * -2) / sp).r.as_poly() if lo is not None and sp is not None else None
+            if q is not None and q.is_const() and float(q.const_value()).is_integer():
+                inner = (int(q.const_value()), "ny", "nx")
+        except Exception:
+            inner = None
+        return Stack([Sym(("grid", k)) for k in range(len(cv))], inner)
     hooks["pkgfunc"] = {"plot/parser.py::get_norm": lambda norm=None, vmin=None, vmax=None: ("norm-object", norm, vmin, vmax),
                         "plot/direction.py::get_direction": basis_stub, "plot/utils.py::evaluate_on_grid": kernel_stub,
                         "plot/render.py::render": lambda **kw: setattr(rec, "render", kw) or {"ax": None, "fig": None}}
@@ -152,6 +161,7 @@ SCENARIOS = [
     ("thin map", False, ("mean", "sum"), {"x": 8, "y": 6}),
     ("thick map, depth resolution given", True, ("mean", "sum"), {"x": 8, "y": 6, "z": 4}),
     ("thick map, depth resolution derived", True, ("nansum", "mean"), {"x": 8, "y": 6}),
+    ("thick map with a single depth sample", True, ("sum", "mean"), {"x": 8, "y": 6, "z": 1}),
 ]
 LAYOUT = [("scalar", 0, 1), ("vector", 1, 3), ("scalar", 4, 1)]
 
